@@ -16,6 +16,7 @@ TYPE_NO = {'#NULL!': 1, '#DIV/0!': 2, '#VALUE!': 3, '#REF!': 4, '#NAME?': 5, '#N
 IDX = dict((c, i) for i, c in enumerate(CODES8))
 
 GENERIC_ROUTES = ['var', 'cell', 'host-returns', 'host-raises', 'SUM-raises', 'MAX-raises', 'PRODUCT-raises', 'nested-call']
+AGGS = ['GEOMEAN', 'HARMEAN', 'MEDIAN', 'VAR', 'STDEV.P', 'AVEDEV', 'MODE', 'AVERAGE', 'MIN', 'AVERAGEA', 'LARGE', 'AND', 'XOR', 'CONCATENATE']      # aggregates whose implementation walks its items (some of them inside library routines that catch exceptions of their own)
 SPECIFIC = [('(1/0)', '#DIV/0!', 'operator'), ('(2/(1-1))', '#DIV/0!', 'operator'), ('("q"+1)', '#VALUE!', 'operator'), ('(1-DATE(2019,1,1))', '#NUM!', 'operator'),
             ('NA()', '#N/A', 'builtin-returns'), ('SQRT("q")', '#VALUE!', 'builtin-returns'), ('INDEX({1,2},5)', '#REF!', 'builtin-returns'),
             ('SUM(1/0)', '#DIV/0!', 'SUM-raises'), ('MAX({1,2},NA())', '#N/A', 'MAX-raises'), ('MOD(5,0)', '#DIV/0!', 'builtin-returns'),
@@ -46,7 +47,13 @@ def source_node(code, route):
     raise ValueError(route)
 
 
+def agg_node(code, f):
+    i = IDX[code]
+    return ['src', 'LARGE({4,2},v_e%s)' % 'abcdefgh'[i] if f == 'LARGE' else '%s(4,v_e%s,2)' % (f, 'abcdefgh'[i]), code, 'AGG-raises']
+
+
 sources = st.one_of(
+    st.tuples(st.sampled_from(CODES8), st.sampled_from(AGGS)).map(lambda t: agg_node(*t)),
     st.tuples(st.sampled_from(CODES8), st.sampled_from(GENERIC_ROUTES)).map(lambda t: source_node(*t) + [t[1]]),
     st.sampled_from(SPECIFIC).map(lambda t: ['src', t[0], t[1], t[2]]),
 )
